@@ -106,5 +106,6 @@ pub fn behaviour() -> Behaviour {
         thorough: 20000,
         batch: 25,
         assumptions: &["custom methods m_eq_le (asymmetric) and m_eq_mod make argument order and method identity observable"],
+        miri_units: 0,
     }
 }
